@@ -436,6 +436,8 @@ pub proof fn lemma_shrinks_trans(a: &Config, b: &Config, c: &Config)
 //@after 0 `let (project_dir, yaml_target) =`
             let ghost c1 = *config;
             proof { assert(cfg_shrinks(&c0, &c1)); }
+//@after 0 `let (mut target,`
+            let ghost refs = dependencies_from_input@;
 //@after 0 `target.extend_dependencies(&dependencies_from_input);`
             let ghost deps_all = target.meta().dependencies@;
             proof {
@@ -500,10 +502,10 @@ pub proof fn lemma_shrinks_trans(a: &Config, b: &Config, c: &Config)
                 }
 //@before 0 `domain_targets.insert(target_id.clone(), target);`
             proof {
-                assert(/*[C01.outdep,C13.dep]*/ forall|j: int| 0 <= j < dependencies_from_input@.len() ==> target.meta().dependencies@.contains(#[trigger] dependencies_from_input@[j]));
-                assert(/*[C09.output-kind]*/ forall|j: int| 0 <= j < dependencies_from_input@.len() ==> domain_targets@[#[trigger] dependencies_from_input@[j]] is Build);
-                assert(/*[C13.inherit]*/ dependencies_from_input@.len() > 0 ==> target.inp()->Some_0.files@ == inherited_files(files0, dependencies_from_input@, domain_targets@, dependencies_from_input@.len() as int));
-                assert(/*[C13.inherit]*/ dependencies_from_input@.len() > 0 ==> target.inp()->Some_0.cmds@ == inherited_cmds(cmds0, dependencies_from_input@, domain_targets@, dependencies_from_input@.len() as int));
+                assert(/*[C01.outdep,C13.dep]*/ forall|j: int| 0 <= j < refs.len() ==> target.meta().dependencies@.contains(#[trigger] refs[j]));
+                assert(/*[C09.output-kind]*/ forall|j: int| 0 <= j < refs.len() ==> domain_targets@.contains_key(refs[j]) && domain_targets@[#[trigger] refs[j]] is Build);
+                assert(/*[C13.inherit]*/ refs.len() > 0 ==> target.inp() is Some && target.inp()->Some_0.files@ == inherited_files(files0, refs, domain_targets@, refs.len() as int));
+                assert(/*[C13.inherit]*/ refs.len() > 0 ==> target.inp() is Some && target.inp()->Some_0.cmds@ == inherited_cmds(cmds0, refs, domain_targets@, refs.len() as int));
             }
 //@end
 
